@@ -308,3 +308,72 @@ Lemma qf_mask65 : forall a b c d e f g, only_bits (query_flags a b c d e f g fal
 Proof. destruct a, b, c, d, e, f, g; reflexivity. Qed.
 Lemma qf_mask66 : forall a b c d e f g h, only_bits (query_flags a b c d e f g h) 3221225663 = true.
 Proof. destruct a, b, c, d, e, f, g, h; reflexivity. Qed.
+
+(* ------------------------------------------------------------------ stepping through a parser *)
+Lemma p_if_false : forall {A} (p : parser A) bs, p_if false p bs = Some (None, bs).
+Proof. reflexivity. Qed.
+Lemma p_if_true : forall {A} (p : parser A) bs a r, p bs = Some (a, r) -> p_if true p bs = Some (Some a, r).
+Proof. intros. cbn [p_if]. rewrite (bind_step _ _ _ _ _ H). reflexivity. Qed.
+
+Ltac all_versions Hs :=
+  apply supported_cases in Hs;
+  destruct Hs as [->|[->|[->|[->|[->|[->|[->| ->]]]]]]];
+  [ev_pv 1 | ev_pv 2 | ev_pv 3 | ev_pv 4 | ev_pv 5 | ev_pv 6 | ev_pv 65 | ev_pv 66].
+
+Ltac rt_base :=
+  first [ eapply rt_short; eassumption | eapply rt_cl; eassumption | eapply rt_byte; eassumption | eapply rt_int; eassumption
+        | eapply rt_long; eassumption | eapply rt_uint32; eassumption | eapply rt_string; eassumption
+        | eapply rt_longstring; eassumption | eapply rt_paging_state; eassumption
+        | eapply rt_longstring_bytes; eassumption | eapply rt_stringmap; eassumption
+        | eapply rt_stringlist; eassumption | eapply rt_bytesmap; eassumption
+        | eapply rt_values; eassumption
+        | eapply p_if_false ].
+
+Lemma rt_cpo : forall pv o bs rest, supported pv = true -> write_paging_options pv o = Some bs ->
+  p_cpo pv (bs ++ rest) = Some (canon_cpo pv o, rest).
+Proof.
+  intros pv o bs rest Hs H. unfold write_paging_options in H. unfold p_cpo, canon_cpo.
+  all_versions Hs; inv_cat H; rewrite <- ?app_assoc; cbn [app];
+  do 2 (erewrite bind_step by rt_base);
+  (erewrite bind_step by first [rt_base | eapply p_if_true; rt_base]); reflexivity.
+Qed.
+
+Lemma rt_opt_id : forall {A} (w : A -> W) (p : parser A) (o : option A) bs rest,
+  (forall x bs rest, o = Some x -> w x = Some bs -> p (bs ++ rest) = Some (x, rest)) ->
+  w_opt o w = Some bs -> p_if (is_some o) p (bs ++ rest) = Some (o, rest).
+Proof. intros. rewrite <- (option_map_id o) at 2. eapply rt_opt; eassumption. Qed.
+
+Ltac rt_solve :=
+  first [ rt_base
+        | eapply rt_cpo; [ reflexivity | eassumption ]
+        | eapply p_if_true; rt_solve
+        | eapply rt_opt_id; cycle 1; [ eassumption | intros ? ? ? ? ?; subst; rt_base ]
+        | eapply rt_opt; cycle 1; [ eassumption | intros ? ? ? ? ?; subst; rt_solve ] ].
+Ltac step := erewrite bind_step by rt_solve.
+
+Definition params_ok (pv : Z) (m : qmsg) : bool :=
+  match q_params m with Some l => values_ok pv l | None => true end.
+
+Ltac kill_raises H :=
+  cbn [negb] in H; rewrite ?andb_false_r, ?andb_true_r in H; cbv iota in H;
+  repeat match type of H with
+         | (if is_some ?v then None else _) = Some _ => destruct v; [discriminate H|]; cbn [is_some] in H; cbv iota in H
+         end.
+
+Ltac qf_bits := rewrite ?qf_bit0, ?qf_bit1, ?qf_bit2, ?qf_bit3, ?qf_bit4, ?qf_bit5, ?qf_bit7, ?qf_bit8, ?qf_bit30, ?qf_bit31.
+
+Lemma rt_query_params : forall pv m bs rest, supported pv = true -> pv <> 1 ->
+  ts_ok pv (q_timestamp m) = true -> params_ok pv m = true ->
+  write_query_params pv m = Some bs -> p_qparams pv (bs ++ rest) = Some (canon_params pv m, rest).
+Proof.
+  intros pv m bs rest Hs Hne Hts Hpo H.
+  destruct m as [params cl serial fetch pstate ts skip cpo ks].
+  unfold write_query_params in H. unfold p_qparams, canon_params, params_ok, ts_ok in *.
+  cbn [q_params q_cl q_serial q_fetch q_paging_state q_timestamp q_skip_meta q_cpo q_keyspace] in *.
+  all_versions Hs; try congruence; kill_raises H.
+  all: match type of Hts with false || _ = true => destruct ts; [discriminate Hts|] | _ => idtac end.
+  all: cbn [is_some cpo_unit_bytes w_opt option_map] in *.
+  all: inv_cat H; rewrite <- ?app_assoc; cbn [app].
+  all: step; step; rewrite ?qf_mask2, ?qf_mask34, ?qf_mask56, ?qf_mask65, ?qf_mask66; cbn [negb]; qf_bits; cbn [is_some].
+  all: do 8 step; reflexivity.
+Qed.
